@@ -330,7 +330,8 @@ def whole_message_rule(chk, fx, rule, name, label):
     t = fx.thir_body(name)
     chk.analysed(name)
     n = 0
-    for p in A.Interp(fx, crates=("netconf",), max_paths=3000).explore(name):
+    paths_all = A.Interp(fx, crates=("netconf",), max_paths=3000).explore(name)
+    for p in paths_all:
         if p.end not in ("return", "fallthrough"):
             continue
         if A.is_res(p.ret) and p.ret[2] == "Err":
@@ -343,6 +344,25 @@ def whole_message_rule(chk, fx, rule, name, label):
                      loc_of(t.get("sp")), holds=ok, key="%s %s accepts-without-reading-to-the-end (%s)" % (rule, label, (ev or ["none"])[-1]),
                      detail=None if ok else "content after the root element is never looked at: a message with a trailer is accepted")
     chk.floor("%s Ok paths of %s" % (rule, label), n, 1)
+    # .. and the root element is taken once: the iteration that stores the parsed root must have found the slot empty, or a
+    # second root in the same message replaces the first (two <hello>s: the session-id reported is the second one's)
+    m = 0
+    for p in paths_all:
+        if p.end != "iter-end":
+            continue
+        st = [e for e in p.assigns() if any(x[0] == "term" and T.short(x[1], 2) in ("ReadXml::read_xml",) for x in A.walk_value(e[2]))
+              or "read_xml(" in A.vstr(e[2])]
+        if not st:
+            continue
+        m += 1
+        var = st[0][1]
+        empty = p.assume.get("variant:«loop:%s»" % var) == "None" or any(
+            v is True and ("is_none(«loop:%s»" % var) in k for k, v in p.assume.items())
+        chk.instance(rule, "%s: the parsed root element is stored only into an empty slot (`%s`)" % (label, var), name, loc_of(st[0][3]), holds=empty,
+                     key="%s %s root-element-accepted-twice" % (rule, label),
+                     detail=None if empty else "a second root element in the same message silently replaces the first")
+    if m == 0:
+        chk.instance(rule, "%s: the root element is not stored across iterations (it ends the loop), so none can replace another" % label, name, None, holds=True)
 
 
 def r6_whole_message(chk, fx):
